@@ -417,3 +417,46 @@ def loop_skip_filter(frames):
                 continue
         other.append(fr)
     return (loop, other) if found else None
+
+
+def merge_sides(ctx, field):
+    """Which sides of `ParsedData += ParsedData` end up in `self.<field>` — a subset of {'self', 'rhs'} — whatever the idiom:
+    in-place `self.f.append(&mut rhs.f)` / `extend(rhs.f)` (keeps self, adds rhs), an assignment `self.f = …`, or a rebuilt value
+    `*self = ParsedData { f: take(self).f.into_iter().chain(rhs.f).collect(), ..rhs }` (a field not listed comes from the
+    struct-update base alone).  None when the merge function is not found."""
+    fs = [g for g in ctx.astq['functions'] if g['name'].split('::')[-1] == 'add_assign' and (g.get('self_ty') or '').split('<')[0] == 'ParsedData']
+    if len(fs) != 1:
+        return None
+    f = ctx.x(fs[0])
+    other = next((p_['name'] for p_ in f['params'] if p_['name'] != 'self'), 'rhs')
+
+    def sides(v):
+        out = set()
+        for x in vt.walk(v or {}):
+            if x.get('k') == 'atom' and (x.get('path') or [None])[-1] == field:
+                out.add('rhs' if x.get('root') == other else ('self' if x.get('root') == 'self' else '?'))
+            if x.get('k') == 'field' and x.get('name') == field:
+                b = vt.show(x.get('base'))
+                out.add('rhs' if b.startswith(other) else ('self' if 'self' in b else '?'))
+        return out
+    got = set()
+    touched = False
+    for c in f['calls']:
+        if c.get('f') in ('append', 'extend', 'extend_from_slice', 'push') and c.get('recv') is not None and vt.show(vt.strip(c['recv'])).replace(' ', '').lstrip('&').replace('mut', '') in (f'self.{field}',):
+            touched = True
+            got |= {'self'} | {x for a in c.get('args', []) for x in sides(a)}
+    for a in f['assigns']:
+        t = vt.show(a.get('target')).replace(' ', '').lstrip('*')
+        if t == f'self.{field}':
+            touched = True
+            got = sides(a.get('value'))
+        elif t == 'self':
+            val = vt.unvar(a.get('value'))
+            if isinstance(val, dict) and val.get('k') == 'struct':
+                touched = True
+                if field in val.get('fields', {}):
+                    got = sides(val['fields'][field])
+                else:
+                    base = vt.show(val.get('rest')) if val.get('rest') is not None else ''
+                    got = {'rhs'} if base.startswith(other) else ({'self'} if 'self' in base else set())
+    return got if touched else {'self'}
